@@ -97,42 +97,51 @@ def float_drift_horizon(tpb, q, durs, delay, nticks):
     return horizon
 
 
-def check_closed(ctx, lines, tpb, q, durs, delay, nticks, tag):
+def closed_eval(args):
+    """worker: run one closed-form case on the implementation; returns a picklable verdict"""
+    lines, tpb, q, durs, delay, nticks, tag = args
     out = sched_impl.run_lines(lines)
     impl = out[1:]
     exp = expected_onsets(q, durs, delay, nticks)
     obs = observed_onsets(impl)
+    bad = [(t, exp.get(t), obs.get(t)) for t in sorted(set(exp) | set(obs)) if [exp.get(t)] != obs.get(t, [None])]
+    res = {"args": args, "first_onsets": sorted(obs)[:8], "bad": bad[:5], "impl_head": impl[:50]}
+    if bad:
+        t0, e0, o0 = bad[0]
+        # classify: the known float drift shows as onsets exactly one tick late/early beyond the float horizon
+        hz = float_drift_horizon(tpb, q, durs, delay, nticks)
+        exp_t = sorted(exp)
+        obs_t = sorted(t for t, ns in obs.items() for _ in ns)
+        pairwise = len(exp_t) - len(obs_t) in (0, 1, -1) and all(abs(a - b) <= 1 for a, b in zip(exp_t, obs_t))
+        if hz is not None and t0 >= hz - 1 and pairwise:
+            res["sig"] = "C01:float-drift:tpb=%d" % tpb
+            res["what"] = "onset at tick %s instead of %s after the float horizon (tick %d): tpb=%d durations=%s/%d beats" % (
+                sorted(o for o in obs if o >= t0)[:1], t0, hz, tpb, durs[:6], q * tpb)
+        else:
+            res["sig"] = "C01:closed-form"
+            res["what"] = "first mismatch at tick %d: expected note %s, observed %s (tpb=%d q=%d durs=%s delay=%d)" % (
+                t0, e0, o0, tpb, q, durs[:8], delay)
+    return res
+
+
+def account_closed(ctx, res):
+    lines, tpb, q, durs, delay, nticks, tag = res["args"]
     offgrid = any(d % q for d in durs)
     ctx.case(tuple(lines[1:]), nontrivial=offgrid or nticks >= 10000,
              sample={"tpb": tpb, "q": q, "durations_units": durs[:8], "delay": delay, "ticks": nticks,
-                     "first_onsets": sorted(obs)[:8]}, validated=False)
+                     "first_onsets": res["first_onsets"]}, validated=False)
     ctx.count("closed:" + tag, "tpb:%d" % tpb)
-    bad = [(t, exp.get(t), obs.get(t)) for t in sorted(set(exp) | set(obs)) if [exp.get(t)] != obs.get(t, [None])]
-    if not bad:
-        return
-    t0, e0, o0 = bad[0]
-    # classify: the known float drift shows as onsets exactly one tick late/early beyond the float horizon
-    hz = float_drift_horizon(tpb, q, durs, delay, nticks)
-    exp_t = sorted(exp)
-    obs_t = sorted(t for t, ns in obs.items() for _ in ns)
-    pairwise = len(exp_t) - len(obs_t) in (0, 1, -1) and all(abs(a - b) <= 1 for a, b in zip(exp_t, obs_t))
-    if hz is not None and t0 >= hz - 1 and pairwise:
-        sig = "C01:float-drift:tpb=%d" % tpb
-        what = "onset at tick %s instead of %s after the float horizon (tick %d): tpb=%d durations=%s/%d beats" % (
-            sorted(o for o in obs if o >= t0)[:1], t0, hz, tpb, durs[:6], q * tpb)
-    else:
-        sig = "C01:closed-form"
-        what = "first mismatch at tick %d: expected note %s, observed %s (tpb=%d q=%d durs=%s delay=%d)" % (
-            t0, e0, o0, tpb, q, durs[:8], delay)
-    ctx.violation(sig, what, {"suite": "sched", "input": lines, "impl": impl[:50], "expected_first_bad": bad[:5],
-                              "first_failing_clause": "closed-form onset"})
+    if res.get("sig"):
+        ctx.violation(res["sig"], res["what"], {"suite": "sched", "input": lines, "impl": res["impl_head"],
+                                                "expected_first_bad": res["bad"], "first_failing_clause": "closed-form onset"})
 
 
 def run(ctx):
     r = ctx.rng
     # (a) model correspondence
     sched_suite.run_suite(ctx, PROF, ctx.scale(1500, 100000), "c01", [], nontrivial, signature_of)
-    # (b) closed form on short/medium runs
+    # (b) closed form on short/medium runs, (c) long runs: the horizon at which float accumulation shows (known finding)
+    tasks = []
     for i in range(ctx.scale(300, 20000)):
         tpb = r.choice(sched_gen.TPBS)
         q = r.choice([x for x in sched_gen.QS if x * tpb <= 600000])
@@ -140,14 +149,23 @@ def run(ctx):
         durs = [r.choice([q * r.randint(1, 5), r.randint(q, 6 * q)]) for _ in range(n)]
         delay = r.choice([0, 0, q * r.randint(1, 4), r.randint(1, 3 * q)])
         nticks = r.randint(50, 3000)
-        check_closed(ctx, closed_case(r, tpb, q, durs, delay, nticks, "cf%d" % i), tpb, q, durs, delay, nticks, "short")
-    # (c) long runs: the horizon at which float accumulation shows (known finding) and beyond
+        tasks.append((closed_case(r, tpb, q, durs, delay, nticks, "cf%d" % i), tpb, q, durs, delay, nticks, "short"))
     longs = [(24, 1, [24], 0, 100000)]
     if ctx.thorough:
         longs += [(96, 1, [96], 0, 400000), (480, 1, [480], 0, 1100000), (1920, 1, [960], 0, 2100000),
                   (480, 3, [480], 0, 120000), (24, 5, [12], 0, 300000), (480, 7, [2400], 0, 400000)]
     for tpb, q, durs, delay, nticks in longs:
-        check_closed(ctx, closed_case(r, tpb, q, durs, delay, nticks, "long%d" % tpb), tpb, q, durs, delay, nticks, "long")
+        tasks.insert(0, (closed_case(r, tpb, q, durs, delay, nticks, "long%d" % tpb), tpb, q, durs, delay, nticks, "long"))
+    import multiprocessing as mp
+    import os
+    procs = min(16, os.cpu_count() or 1, len(tasks))
+    if procs <= 1:
+        results = [closed_eval(t) for t in tasks]
+    else:
+        with mp.get_context("fork").Pool(procs) as pool:
+            results = pool.map(closed_eval, tasks, chunksize=max(1, len(tasks) // (procs * 8)) if len(tasks) > 64 else 1)
+    for res in results:
+        account_closed(ctx, res)
 
 
 def replay(ctx, payload):
